@@ -14,6 +14,8 @@ class BuiltinMixin:
             return self.call_builtin_method(f.bound, name[5:], args, kw, node)
         if name.startswith('opq:'):
             return self.call_opq_method(f.bound, name[4:], args, kw, node)
+        if name.startswith('opqm:'):
+            return self.opq_call(f.bound, name[5:].split('.', 1)[1], args, kw, node)
         if name == 'object.__init__':
             return NONE
         if name.startswith('uf:'):
@@ -490,6 +492,11 @@ class BuiltinMixin:
             raise Unsupported('timeit with number != 1')
         self.call_value(args[0], [], {}, node)
         return SV('opq', self.sym('seconds', OPQ), 'float')
+
+    def bi_slice(self, args, kw, node):
+        if len(args) == 1:
+            return SV('slice', (NONE, args[0]))
+        return SV('slice', (args[0], args[1]))
 
     def bi_print(self, args, kw, node):
         return NONE
